@@ -538,20 +538,21 @@ TxRenew(cfg, s, ev) ==
     ELSE IF ev.dur < MinDuration \/ ev.dur > 63072000 THEN Tx(s, Fail(w0, "invalid duration"))
     ELSE
     LET one(w, d) ==
-          IF ~HasMeta(w, d) THEN w
+          IF ~Good(w) \/ ~HasMeta(w, d) THEN w
           ELSE LET m == MetaOf(w, d) IN
           IF m.owner # ev.owner \/ m.status # MComplete \/ ~HasOrder(w, m.order) THEN w
           ELSE LET o == OrderOf(w, m.order) IN
           IF \E j \in 1..Len(o.shards) : ~HasShard(w, o.shards[j]) \/ ShardOf(w, o.shards[j]).status \notin {SCompleted, SMigrating} THEN w
           ELSE IF o.status # OCompleted \/ o.created + o.dur < w.h THEN w
-          ELSE IF ~HasPay(w, o.owner) THEN w
+          \* the renewal order belongs to (and is paid by) the MODEL's owner - who signed it -, not to whoever made the last order
+          ELSE IF ~HasPay(w, m.owner) THEN w
           ELSE LET amount == Price(o.size, o.replica, ev.dur) IN
-          IF BalOf(w, PayOf(w, o.owner)) < amount \/ amount <= 0 THEN w
+          IF BalOf(w, PayOf(w, m.owner)) < amount \/ amount <= 0 THEN w
           ELSE
-          LET no == [id |-> w.oc, creator |-> ev.creator, owner |-> o.owner, provider |-> ev.provider, status |-> o.status,
+          LET no == [id |-> w.oc, creator |-> ev.creator, owner |-> m.owner, provider |-> ev.provider, status |-> o.status,
                      replica |-> o.replica, shards |-> o.shards, amount |-> amount, size |-> o.size, op |-> 3, created |-> w.h,
                      timeout |-> ev.timeout, dur |-> ev.dur, data |-> o.data, commit |-> o.commit, paydid |-> ""]
-              w1 == SetOrder([Send(w, PayOf(w, o.owner), "m_market", amount) EXCEPT !.oc = @ + 1], no)
+              w1 == SetOrder([Send(w, PayOf(w, m.owner), "m_market", amount) EXCEPT !.oc = @ + 1], no)
               perShard(acc, id) ==
                   LET sh == ShardOf(acc.w, id) IN
                   IF sh.status = SMigrating THEN acc
@@ -568,8 +569,7 @@ TxRenew(cfg, s, ev) ==
                        IN [w |-> SetShard(wa, sh1), e |-> Max2(acc.e, ShardPaidEnd(sh1))]
               r == FoldLeft(perShard, [w |-> w1, e |-> 0], o.shards)
               w2 == ExtendMetaDuration(cfg, r.w, d, r.e)
-              u == UpdateMeta(cfg, w2, no)
-          IN IF Good(u) THEN u ELSE w2
+          IN UpdateMeta(cfg, w2, no)      \* a failure here fails the whole transaction
     IN Tx(s, FoldLeft(one, w0, ev.datas))
 
 TxMigrate(cfg, s, ev) ==
@@ -997,16 +997,28 @@ SeedAt(cfg, h) ==
     ELSE IF cfg.seedMode = "small" THEN (h * 7 + cfg.salt) % 10
     ELSE (h * 7919 + cfg.salt * 104729) % 1000003
 
-\* node BeginBlocker reward of one block given the pool (age 0 fragment; see DESIGN 3.3)
+\* node BeginBlocker reward of one block given the pool.
+\* The subsidy halves with the "age" of the reward: the number of halvings of what is left of TOTAL_REWARD. The counter of
+\* minted rewards is far beyond 32 bits near a halving point, so the state carries it RELATIVE to its genesis value and the
+\* configuration says where genesis stands: cfg.rewardAge (age at genesis; 256 = everything minted) and cfg.toNextAge
+\* (coins still to be minted before the age increases; 0 = out of reach).
+RewardAge(cfg, w) ==
+    IF cfg.rewardAge >= 256 THEN 256
+    ELSE IF cfg.toNextAge > 0 /\ w.pool.reward >= cfg.toNextAge THEN cfg.rewardAge + 1 ELSE cfg.rewardAge
+Subsidy(cfg, w) == LET a == RewardAge(cfg, w) IN IF a >= 31 THEN 0 ELSE cfg.blockReward \div (2 ^ a)
 BlockRewardOf(cfg, w) ==
     IF w.pool.pledged = 0 \/ cfg.blockReward = 0 THEN 0
-    ELSE IF w.pool.pledged < cfg.baseline THEN Min2(cfg.blockReward, (w.pool.pledged * cfg.apyNum) \div (cfg.apyDen * (cfg.halvingPeriod \div 2)))
-    ELSE cfg.blockReward
+    ELSE IF w.pool.pledged < cfg.baseline THEN Min2(Subsidy(cfg, w), (w.pool.pledged * cfg.apyNum) \div (cfg.apyDen * (cfg.halvingPeriod \div 2)))
+    ELSE Subsidy(cfg, w)
 \* k consecutive BeginBlocks with an unchanged pool: heights h+1..h+k
+RECURSIVE BeginBlocks(_, _, _)
 BeginBlocks(cfg, w, k) ==
     LET r == BlockRewardOf(cfg, w)
         w1 == [w EXCEPT !.h = @ + k, !.seed = SeedAt(cfg, w.h + k)]
     IN IF r = 0 \/ k = 0 THEN w1
+       \* the age changes inside these k blocks: one block at a time
+       ELSE IF k > 1 /\ RewardAge(cfg, [w EXCEPT !.pool.reward = @ + (k - 1) * r]) # RewardAge(cfg, w)
+            THEN BeginBlocks(cfg, BeginBlocks(cfg, w, 1), k - 1)
        ELSE IF w.pool.storage = 0 THEN Fail(w1, "PANIC division by zero")
        ELSE LET units == Units(w.pool.storage)
                 inexact == (r * 1000) % units # 0
